@@ -1211,7 +1211,7 @@ func (g *vGen) corruptCU(i int) (*lnwire.ChannelUpdate1, string) {
 	resign := true
 	tag := ""
 	capMsat := uint64(d.value) * 1000
-	switch r.intn(16) {
+	switch r.intn(20) {
 	case 0:
 		u.Signature = g.randSig()
 		return u, "cu_sig_random"
@@ -1265,7 +1265,7 @@ func (g *vGen) corruptCU(i int) (*lnwire.ChannelUpdate1, string) {
 			tag = "cu_ts_max"
 		}
 		resign = r.intn(6) != 0
-	case 9: // keep-alive around the rebroadcast interval
+	case 9, 16, 17, 18, 19: // keep-alive around the rebroadcast interval
 		if last == 0 {
 			return u, "cu_plain"
 		}
@@ -1457,6 +1457,13 @@ func (g *vGen) next(step int, kind string) (lnwire.Message, string) {
 			continue
 		}
 		if m = vClone(m); m == nil {
+			continue
+		}
+		// A channel whose two node keys are equal passes the gossiper's own
+		// checks and is refused only inside the bbolt graph store ("cannot
+		// write unknown policy ..."); that store-specific corner is outside
+		// the model (see notes/C20.md) and is not generated.
+		if a, ok := m.(*lnwire.ChannelAnnouncement1); ok && a.NodeID1 == a.NodeID2 {
 			continue
 		}
 		// Replays of premature updates run concurrently inside lnd; keep
